@@ -23,6 +23,9 @@ fn ssa(src: &str) -> String {
   let r = samlang_checker::perform_ssa_analysis_on_module(mref, &m, &mut ssa_errors);
   let mut d = Dumper::new(&heap, mref);
   d.module(&m);
+  if !d.loc_mismatch.is_empty() {
+    return format!("locinv {}", d.loc_mismatch.join(","));
+  }
   let res = d.render(&r, &ssa_errors);
   format!("{}=> {}", d.out, res)
 }
